@@ -240,7 +240,13 @@ fn c05_statistics_ops_delegates_geometric_concrete() {
     let g = Geometric { log_space: arith_from_parts_f64(3.0, 5.0, 3) }; // log-space sum 3, sum of squares 5
     assert!(<Geometric<f64> as StatisticsOps<f64>>::sample_count(&g) == 3 && g.sample_count() == 3);
     // (CBMC's model of `exp` is nondeterministic within its error bound, so two evaluations of G or of G * se(ln x) cannot be
-    // compared for equality here; the float-valued queries of Geometric are decided by the Verus obligations Geometric::ops_*)
+    // compared for equality here; the exact statement is decided by the Verus obligations Geometric::ops_*).  What can be said
+    // on this state (mean of the logarithms = 1, so G = e): the trait reports a mean near e, not 1, and a standard error near
+    // e * se(ln x), not se(ln x)
+    let inner_sem = g.log_space.sample_sem();
+    let (tm, ts) = (<Geometric<f64> as StatisticsOps<f64>>::sample_mean(&g), <Geometric<f64> as StatisticsOps<f64>>::sample_sem(&g));
+    assert!(inner_sem > 0.0 && tm > 2.5 && tm < 3.0, "StatisticsOps::sample_mean of a Geometric state is not exp(mean of logs)");
+    assert!(ts > 2.5 * inner_sem && ts < 3.0 * inner_sem, "StatisticsOps::sample_sem of a Geometric state is not G * se(ln x)");
     let mut k = g;
     assert!(<Geometric<f64> as StatisticsOps<f64>>::append(&mut k, -1.0).is_err() && k == g, "the trait's append must validate like the inherent one");
     kani::cover!(true);
